@@ -225,8 +225,17 @@ def transforms_gen(ndim):
 
 # ------------------------------------------------------------------------------------------------ json helpers
 def arr_to_case(a):
+    if a.size > 4096:
+        # run-length form (C order) for large arrays
+        f = np.ascontiguousarray(a).ravel()
+        cut = np.flatnonzero(np.concatenate(([True], f[1:] != f[:-1])))
+        lens = np.diff(np.concatenate((cut, [f.size])))
+        return {"__rle__": [[int(f[c]), int(n)] for c, n in zip(cut, lens)], "shape": list(a.shape), "dtype": str(a.dtype)}
     return {"__nd__": a.tolist(), "dtype": str(a.dtype)}
 
 
 def arr_from_case(d):
+    if "__rle__" in d:
+        vals = np.array([v for v, n in d["__rle__"]], dtype=d["dtype"])
+        return np.repeat(vals, [n for v, n in d["__rle__"]]).reshape(d["shape"])
     return np.array(d["__nd__"], dtype=d["dtype"])
